@@ -28,7 +28,12 @@ RULE = ("Every decoder call on untrusted input is recorded as one event (child p
         "tinyint, nan, nested tuples - which the library cannot encode, with the value each denotes, and their ill-formed neighbours (length field over the "
         "structure of n-1 / n+1 entries, missing tail, head reference to a leaf, lengths 255 / 256 over few references); each is decoded as VmStackValue, on "
         "a VmStack and through VmStack.UnmarshalTL: well-formed ones must decode to exactly that value, all must return; they are also seeds of the mutation "
-        "classes, as are driver-laid-out small BinTree / HashmapAugE / ChunkedData encodings (decode-only as well). A budget breach, Timeout or Crash is re-run from "
+        "classes; Decode_CondGen (TLC) builds from spec/schemas/*.tlb, for every constructor with fields other fields depend on, a well-formed cell "
+        "for EVERY assignment of those fields (block_info: not_master x after_merge x vert_seqno_incr x flags.0, also under a block header) - seeds too; every "
+        "value a TL-B decoder returns is then handed to the accessors a caller uses next (every parameterless exported method of every library-typed part of "
+        "it, VmCellSlice.UnmarshalToTlbStruct, VmStackValue / VmStkTuple / VmStack.Unmarshal, ton.AccountIDFromTlb; variant-guarded accessors only on their "
+        "variant; nothing below a sum type left without constructor by a pruned branch): a panic there rejects the event; vm_stk_slice windows at / inside / "
+        "beyond the bounds of the referenced cell are driven as values and on a stack; as are driver-laid-out small BinTree / HashmapAugE / ChunkedData encodings (decode-only as well). A budget breach, Timeout or Crash is re-run from "
         "its recorded input and reported only if it happens again. distinct = distinct inputs executed.")
 
 END_RE = re.compile(r'"k":\s*"End"')
@@ -235,6 +240,7 @@ def helper_class(e, b):
 
 
 TUPLE_SEED0 = 100000     # seed numbers of the bags made from VmTuple_Gen's well-formed tuples
+COND_SEED0 = 200000      # seed numbers of the cells Decode_CondGen built from the schema
 BAD_SEEDS = {}           # seed number -> key, for seeds that are rejected unchanged: their mutants show the same finding
 
 
@@ -255,8 +261,16 @@ def key_of(e, note, b=None):
     if kind == "Tuple":
         # spec-built tuples: well-formed ("wf") or the ill-formed neighbour class, whichever of the three entry points met it
         return "C08:tlb:VmStkTuple:%s:%s" % (cls.replace("tuple:", ""), what)
+    if kind == "Decode" and what == "use":
+        # the call site is the accessor that panicked on the returned value (innermost first: parts are used before the
+        # whole); which input produced such a value is in the replay
+        m = re.match(r"panic: \*?([\w.\[\],]+?): ", e.get("use", ""))
+        return "C08:use:%s" % (m.group(1) if m else "?")
     if kind == "Decode" and e.get("seedid", -1) in BAD_SEEDS:
         return BAD_SEEDS[e["seedid"]]
+    if kind == "Decode" and cls == "specgen:same" and e.get("seedid", -1) >= COND_SEED0:
+        # a well-formed cell built from the schema with some combination of its conditional fields (the combination is in the replay)
+        return "C08:tlb:%s:schema_built:%s" % (e.get("type"), what)
     if kind == "Decode" and cls == "specgen:same" and e.get("seedid", -1) >= TUPLE_SEED0:
         return "C08:tlb:VmStkTuple:wf:%s" % what
     if kind == "Decode" and cls.startswith("big_"):
@@ -344,6 +358,26 @@ def run(ck):
     if len(opt_types) < 10 or "abi.JettonTransferMsgBody" not in opt_types or sum(1 for o in opt if o["type"] == "abi.InMsgBody") < 5:
         raise Infra("seeds lack abi message bodies with their optional references present: %s" % opt_types)
     ck.extra["abi_bodies_with_optional_refs"] = {"bare_types": len(opt_types) - 1, "behind_op_code": sum(1 for o in opt if o["type"] == "abi.InMsgBody")}
+    # cells built from the schema with every combination of the conditional / parameter-steering fields (block_info with
+    # vert_seqno_incr = 1, after_merge, master_ref, gen_software ...): combinations no recorded encoding or fixture shows
+    tschema = tlbcommon.schema_file(ck)
+    cres = ck.tlc_or_infra("Decode_CondGen", "gen/Decode_CondGen.cfg", files={"schema.json": tschema}, workers=4, timeout=900, name="condgen", heap_gb=3)
+    conds = cres.vecs()
+    bad = [c for c in conds if not c.get("ok")]
+    if bad:
+        raise Infra("Decode_CondGen could not encode its own value: %s" % json.dumps(bad[0])[:300])
+    if not any(c["type"] == "BlockInfo" and "vert_seqno_incr" in c["on"] for c in conds) or len(conds) < 8:
+        raise Infra("Decode_CondGen wrote %d vectors and no block_info with vert_seqno_incr" % len(conds))
+    cond_on = {}
+    for k, c in enumerate(conds):
+        if ("tlb." + c["type"]) not in open(os.path.join(vlib.HARNESS, "internal", "tlbx", "zz_types.go")).read():
+            continue
+        cond_on[COND_SEED0 + 2 * k] = c["type"] + ":" + c["on"]
+        srows.append(json.dumps({"type": "tlb." + c["type"], "seed": COND_SEED0 + 2 * k, "cells": c["cells"], "roots": [0]}))
+        if c.get("hdrcells"):
+            cond_on[COND_SEED0 + 2 * k + 1] = "BlockHeader:" + c["on"]
+            srows.append(json.dumps({"type": "tlb.BlockHeader", "seed": COND_SEED0 + 2 * k + 1, "cells": c["hdrcells"], "roots": [0]}))
+    ck.extra["schema_built_conditional_seeds"] = {"vectors": len(conds), "seeds": len(cond_on), "types": sorted({c["type"] for c in conds})}
     # the well-formed tuples are seeds of the mutation classes like recorded encodings (as a value and on a stack)
     wfs = [v for v in tuples if v["wf"] and 2 <= len(v["cells"]) <= 12]
     step = max(1, len(wfs) // (60 if ck.thorough else 16))
@@ -498,6 +532,17 @@ def run(ck):
     same = [e for j in jobs if j.part == "bags" for e in vlib.read_ndjson(j.trace) if e.get("class") == "specgen:same"]
     ck.extra["seeds_decoded_unchanged"] = {"fed": len(same), "ok": sum(1 for e in same if e.get("res") == "ok"),
                                            "decode_only_types_ok": sorted({e["type"] for e in same if e.get("res") == "ok" and ("[" in e["type"] or e["type"] in ("tlb.ChunkedData", "tlb.VmStackValue", "tlb.VmStack"))})}
+    # the schema-built conditional variants must have been decoded (every one of them is a well-formed value of its type)
+    cs_ok = {e["seedid"] for e in same if e.get("seedid", -1) >= COND_SEED0 and e.get("res") == "ok"}
+    cs_rej = {c[1].get("seedid") for c in cand if c[1].get("class") == "specgen:same" and c[1].get("seedid", -1) >= COND_SEED0}
+    ck.extra["schema_built_conditional_seeds"]["decoded_ok"] = len(cs_ok)
+    missing = sorted(set(cond_on) - cs_ok - cs_rej)
+    if missing:
+        raise Infra("schema-built variants were not decoded: %s" % [cond_on[m] for m in missing][:6])
+    slices = [e for j in jobs if j.part == "tuples" for e in vlib.read_ndjson(j.trace) if e.get("k") == "Decode" and e.get("class", "").startswith("slice:")]
+    ck.extra["stack_slice_windows"] = {"driven": len(slices), "returned_and_used": sum(1 for e in slices if e["res"] == "ok")}
+    if sum(1 for e in slices if e["res"] == "ok") < 20 and not any(c[1].get("class", "").startswith("slice:") for c in cand):
+        raise Infra("no stack slice was decoded and used")
     if stats["values_judged"] < 1000:
         raise Infra("only %d returned values were judged against the schema" % stats["values_judged"])
 
@@ -591,6 +636,8 @@ def describe(e, note):
         return "the process died in %s (%s, input class %s): %s" % (where, inp, e.get("class"), e.get("why", "")[:300])
     if k == "Timeout":
         return "%s did not return within %s ms (%s, input class %s)" % (where, e.get("limit_ms"), inp, e.get("class"))
+    if note == "use":
+        return "%s returned a value on which an accessor then panicked (%s, input class %s): %s" % (where, inp, e.get("class"), e.get("use", "")[:300])
     if note == "value":
         return "%s returned a value that is not a reading of its input (%s, input class %s)" % (where, inp, e.get("class"))
     if note == "value-differs-from-Dec":
@@ -629,6 +676,8 @@ def canaries(ck, dec_ok, asts, tl_ok, schema):
     h = {"k": "Helper", "i": 0, "site": "liteapi.GetTransactions", "class": "x", "res": "ok", "alloc_kb": 1, "ms": 1, "size": 100,
          "bags": [{"len": 50, "nroots": 1}], "wire_ok": True, "nids": 0, "errans": False, "nres": 1}
     c.append(h)
+    u = copy.deepcopy(dec_ok); u["use"] = "panic: tlb.VmCellSlice.Cell: not enough cell bits"
+    c.append(u)
     c.append(dec_ok)
     c.append(tl_ok)
     p = os.path.join(ck.work, "canary.ndjson")
@@ -641,7 +690,8 @@ def canaries(ck, dec_ok, asts, tl_ok, schema):
     ck.states, ck.transitions, ck.traces_ok, ck.evaluations = st
     got = [r["line"] for r in rej]
     ck.canary("C->S: Panic / Timeout / Crash / over allocation / over time / input bit changed under a returned value / input root truncated / TL input changed "
-              "under a returned value / TL over allocation / transactions without block ids rejected; the two originals accepted", got == list(range(1, 11)))
+              "under a returned value / TL over allocation / transactions without block ids / an accessor panicking on the returned value rejected; the two originals accepted",
+              got == list(range(1, 12)))
 
 
 def replay(ck, path):
